@@ -63,6 +63,9 @@ def rules(ctx):
                 "unserved passengers at a node = demand minus formation capacity / seats")
     from . import formulas
     before = len(ctx.obligations)
+    formulas.tour_formulas(ctx, "R4")
+    ctx.obligations[before:] = [o for o in ctx.obligations[before:] if "formula" in o.id]
+    before = len(ctx.obligations)
     formulas.network_formulas(ctx, "R4")
     ctx.obligations[before:] = [o for o in ctx.obligations[before:] if "idle_time" in o.id or "duration" in o.id]
     # R5: the caches read by the indicators are maintained truthfully (rule groups shared with C09 / C07)
